@@ -16,9 +16,32 @@ _EXPECTED_PARAMS = {
 }
 
 
+def vlib_strip_go_comments(src):
+    """Remove // and /* */ comments (string literals are respected well enough for the files scanned here)."""
+    import re
+    out, i, n = [], 0, len(src)
+    while i < n:
+        c = src[i]
+        if c == '"':
+            j = i + 1
+            while j < n and src[j] != '"':
+                j += 2 if src[j] == "\\" else 1
+            out.append(src[i:j + 1]); i = j + 1
+        elif c == "`":
+            j = src.find("`", i + 1); j = n if j < 0 else j
+            out.append(src[i:j + 1]); i = j + 1
+        elif src.startswith("//", i):
+            j = src.find("\n", i); i = n if j < 0 else j
+        elif src.startswith("/*", i):
+            j = src.find("*/", i + 2); i = n if j < 0 else j + 2
+        else:
+            out.append(c); i += 1
+    return "".join(out)
+
+
 class P(vlib.Prop):
     pid = "C18"
-    coq_dirs = ["Common", "C18"]   # + Generated/MemLimiter18.v, gated in extra_checks
+    coq_dirs = ["Common", "C18"]   # + Generated/MemLimiter18.v and Generated/C18Api*.v, gated in extra_checks
     coq_targets = ["C18/Properties.vo", "C18/Witness.vo", "C18/Harness.vo"]
     properties_module = "C18.Properties"
     properties_file = "C18/Properties.v"
@@ -29,6 +52,12 @@ class P(vlib.Prop):
     harnesses = [
         vlib.Harness("core", "internal/memorylimiter", ".", {"zz_verif_c18_test.go": "C18/core_test.go"},
                      "^TestVerifC18$", "memorylimiter", timeout=300),
+        vlib.Harness("corerace", "internal/memorylimiter", ".", {"zz_verif_c18_test.go": "C18/core_test.go"},
+                     "^TestVerifC18Race$", "memorylimiter", timeout=300, race=True),
+        vlib.Harness("cgroups", "internal/memorylimiter", "./cgroups/", {"zz_verif_c18_test.go": "C18/cg_test.go"},
+                     "^TestVerifC18CG$", "cgroups", timeout=300),
+        vlib.Harness("total", "internal/memorylimiter", "./iruntime/", {"zz_verif_c18_test.go": "C18/total_test.go"},
+                     "^TestVerifC18Total$", "iruntime", timeout=300),
         vlib.Harness("proc", "processor/memorylimiterprocessor", ".", {"zz_verif_c18_test.go": "C18/proc_test.go"},
                      "^TestVerifC18Proc$", "memorylimiterprocessor", timeout=300),
         vlib.Harness("ext", "extension/memorylimiterextension", ".", {"zz_verif_c18_test.go": "C18/ext_test.go"},
@@ -47,13 +76,22 @@ class P(vlib.Prop):
             "four processors (traces, metrics, logs, profiles) from one factory sharing one limiter, checks "
             "interleaved with Consume* calls into recording sinks with scripted downstream errors, Start/Shutdown "
             "scripts over the four processors, create sequences over several config objects (limiter sharing), "
-            "a concurrent run (ticker flips the mode while 8 producers consume; oracle only). ext (extension/memorylimiterextension): checks + MustRefuse. "
+            "a concurrent run (ticker flips the mode while 8 producers consume; oracle only). corerace: the concurrent "
+            "parts of core under the Go race detector. cgroups (internal/memorylimiter/cgroups): memoryQuotaV2 and "
+            "CGroups.MemoryQuota on generated cgroup files. total (iruntime): TotalMemory against the inputs it reads "
+            "on this machine. ext (extension/memorylimiterextension): checks + MustRefuse. "
             "A case is non-trivial when a limiter was built and at least one check / one successful Start / one "
             "consume happened; distinct = distinct case terms.")
     trusted_base = [
         "Coq 8.16.1 kernel + vm_compute (coqc); no axioms (Print Assumptions: closed under the global context)",
         "translator T1 (tools/go2coq): aboveSoftLimit, aboveHardLimit, newFixedMemUsageChecker, "
         "newPercentageMemUsageChecker, Config.Validate re-read from the current source on every run (uint64 wrap explicit)",
+        "translator T1 also reads MemoryLimiter.MustRefuse, the extension's MustRefuse, NewDefaultConfig and the method "
+        "sets of *MemoryLimiter / *memoryLimiterProcessor / *memoryLimiterExtension (Generated/MemLimiter18.v, C18ApiExt.v, C18ApiProc.v); C18/Obligations.v "
+        "equates the hand-written model pieces and the audited method lists with them",
+        "source obligations checked on the current text by props/C18/check.py: the only non-test caller of CheckMemLimits is "
+        "the goroutine in Start, one goroutine is spawned, mustRefuse is written only by CheckMemLimits, lastGCDone only by "
+        "NewMemoryLimiter and doGCandReadMemStats, Shutdown waits for the goroutine",
         "Go harnesses harness/C18/*.go + go test -overlay; Go toolchain; reflect/unsafe access to lastGCDone, runGCFn, "
         "refCounter from the processor and extension packages",
         "modelled by hand, tied by correspondence: getMemUsageChecker, NewMemoryLimiter, CheckMemLimits, "
@@ -64,19 +102,87 @@ class P(vlib.Prop):
         "(a reading and a GC effect are arbitrary inputs of every check)",
         "CheckMemLimits runs only on the monitoring goroutine (one check at a time); Start/Shutdown are atomic under refCounterLock",
         "Go uint64/uint32 arithmetic wraps mod 2^64 (written explicitly in the generated definitions)",
+        "total memory: the results of cgroups.IsCGroupV2 / the quota readers / gopsutil's meminfo total are inputs of the "
+        "model (total_memory); the used quota and the meminfo total are assumed in [0, 2^64/100) (env_bounded)",
     ]
 
+    # ---- source obligations (B2: single checker goroutine, single writer) -------------------------------
+    @staticmethod
+    def _read_src(path):
+        """Current text of a /repo file, honouring VERIF_EXTRA_OVERLAY like the harnesses and T1 do."""
+        xo = os.environ.get("VERIF_EXTRA_OVERLAY")
+        if xo and os.path.exists(xo):
+            import json
+            rep = json.load(open(xo)).get("Replace", {})
+            if path in rep:
+                path = rep[path]
+        return open(path, encoding="utf-8", errors="replace").read()
+
+    def source_obligations(self, ctx):
+        import re
+        bad = []
+        mods = ["internal/memorylimiter", "processor/memorylimiterprocessor", "extension/memorylimiterextension"]
+        # 1. callers of CheckMemLimits in non-test code of the three packages (and anywhere else in /repo)
+        callers = []
+        rc, out = vlib.run(["grep", "-rln", "--include=*.go", "CheckMemLimits", vlib.REPO], timeout=120)
+        files = sorted(set(f for f in out.split("\n") if f.endswith(".go") and not f.endswith("_test.go"))
+                       | {os.path.join(vlib.REPO, "internal/memorylimiter/memorylimiter.go")})
+        for f in files:
+            src = vlib_strip_go_comments(self._read_src(f))
+            for m in re.finditer(r"\.CheckMemLimits\s*\(|\.CheckMemLimits\b(?!\s*\()", src):
+                callers.append((os.path.relpath(f, vlib.REPO), src.count("\n", 0, m.start()) + 1))
+        ml = vlib_strip_go_comments(self._read_src(os.path.join(vlib.REPO, "internal/memorylimiter/memorylimiter.go")))
+        funcs = {}
+        for m in re.finditer(r"^func (?:\([^)]*\) )?(\w+)\(.*?^}", ml, re.S | re.M):
+            funcs[m.group(1)] = m.group(0)
+        if [c[0] for c in callers] != ["internal/memorylimiter/memorylimiter.go"] or "ml.CheckMemLimits()" not in funcs.get("Start", ""):
+            bad.append("callers of CheckMemLimits in non-test code: expected exactly the monitoring goroutine in "
+                       "MemoryLimiter.Start, found %s" % callers)
+        if funcs.get("Start", "").count("go func") != 1 or sum(len(re.findall(r"\bgo\s+[\w(]", b)) for b in funcs.values()) != 1:
+            bad.append("goroutines spawned in memorylimiter.go: expected exactly one (in Start)")
+        # 2. writers of mustRefuse / lastGCDone
+        w_refuse = sorted(n for n, b in funcs.items() if re.search(r"mustRefuse\s*\.\s*(Store|Swap|CompareAndSwap)\b|mustRefuse\s*=", b))
+        w_gc = sorted(n for n, b in funcs.items() if re.search(r"\blastGCDone\s*(=[^=]|:)", b))
+        if w_refuse != ["CheckMemLimits"]:
+            bad.append("writers of mustRefuse: expected [CheckMemLimits], found %s" % w_refuse)
+        if w_gc != ["NewMemoryLimiter", "doGCandReadMemStats"]:
+            bad.append("writers of lastGCDone: expected [NewMemoryLimiter (constructor), doGCandReadMemStats], found %s" % w_gc)
+        callers_gc = sorted(n for n, b in funcs.items() if "doGCandReadMemStats()" in b and n != "doGCandReadMemStats")
+        if callers_gc != ["CheckMemLimits"]:
+            bad.append("callers of doGCandReadMemStats: expected [CheckMemLimits], found %s" % callers_gc)
+        if "waitGroup.Wait()" not in funcs.get("Shutdown", ""):
+            bad.append("Shutdown no longer waits for the monitoring goroutine (waitGroup.Wait)")
+        # the fields are unexported and the other two packages do not reach into them (they could not, except by reflect)
+        for m_ in mods[1:]:
+            d = os.path.join(vlib.REPO, m_)
+            for fn in sorted(os.listdir(d)):
+                if fn.endswith(".go") and not fn.endswith("_test.go"):
+                    if re.search(r"\breflect\b|\bunsafe\b", vlib_strip_go_comments(self._read_src(os.path.join(d, fn)))):
+                        bad.append("%s/%s uses reflect/unsafe" % (m_, fn))
+        ctx.extra_coverage["source_obligations"] = {
+            "callers_of_CheckMemLimits": ["%s:%d" % c for c in callers], "writers_of_mustRefuse": w_refuse,
+            "writers_of_lastGCDone": w_gc, "ok": not bad}
+        if bad:
+            raise vlib.Broken("source obligation (single checker goroutine / single writer) fails", "\n".join(bad))
+
     def extra_checks(self, ctx):
+        self.source_obligations(ctx)
         # grep gate for this property's own generated file only (not the whole Generated directory)
-        p = os.path.join(vlib.COQ, "Generated", "MemLimiter18.v")
-        src = vlib.strip_coq_comments(open(p, encoding="utf-8").read())
-        bad = ["%s:%d: %s" % (p, i, line.strip()) for i, line in enumerate(src.split("\n"), 1)
-               if vlib.FORBIDDEN.search(line)]
+        bad = []
+        for gen in ("MemLimiter18.v", "C18ApiExt.v", "C18ApiProc.v"):
+            p = os.path.join(vlib.COQ, "Generated", gen)
+            src = vlib.strip_coq_comments(open(p, encoding="utf-8").read())
+            bad += ["%s:%d: %s" % (p, i, line.strip()) for i, line in enumerate(src.split("\n"), 1)
+                    if vlib.FORBIDDEN.search(line)]
         if bad:
             raise vlib.Broken("forbidden vernacular in the development", "\n".join(bad))
 
     def translate(self, ctx):
         vlib.go2coq(ctx, "internal/memorylimiter", os.path.join(_HERE, "t1_spec.json"), "MemLimiter18")
+        # API surface (MustRefuse, NewDefaultConfig, method sets) — Obligations.v equates the hand-written
+        # model pieces / audit lists with these
+        vlib.go2coq(ctx, "extension/memorylimiterextension", os.path.join(_HERE, "t1_api_ext.json"), "C18ApiExt")
+        vlib.go2coq(ctx, "processor/memorylimiterprocessor", os.path.join(_HERE, "t1_api_proc.json"), "C18ApiProc")
         # Model.v applies the generated functions positionally: a change of the parameter order (a
         # reordered struct read, a new parameter) must not silently re-bind arguments.
         got = {}
